@@ -204,9 +204,9 @@ def run(v, tier, seed):
             f_reach = [ex.submit(reach, t) for t in ("Reach_ThreeItems", "Reach_BackToOne")]
             f_cov = ex.submit(action_coverage)
             f_self = ex.submit(selftest)
-            nsh, nmsgs, nsteps = (4, 30, 60) if quick else (16, max(20, int(1500 * scale)), 120)
+            nsh, nmsgs, nsteps = (4, 30, 60) if quick else (16, max(20, int(400 * scale)), 120)
             f_gen = [ex.submit(generate, k, nmsgs, nsteps) for k in range(nsh)]
-            if not quick: f_gen.append(ex.submit(generate, 99, max(20, int(600 * scale)), 120, "asan"))
+            if not quick: f_gen.append(ex.submit(generate, 99, max(20, int(150 * scale)), 120, "asan"))
             # a machinery failure (a guard, a stage that cannot run) must not mask a violation already found on the real code: with a mutated
             # codec the self-test and the later stages can fail in their own ways
             errors = []
